@@ -259,6 +259,18 @@ impl PreferenceManager {
     /// 
     /// If rules_dir is an empty PathBuf, the existing rules_dir is used (an error if it doesn't exist)
     pub fn initialize(&mut self, rules_dir: PathBuf) -> Result<()> {
+        #[cfg(mathcat_verif)]
+        if let Some(env) = crate::verif_hooks::env() {
+            // same steps as below, but the rules dir lives in the installed environment
+            let rules_dir = match env.canonicalize(&rules_dir) {
+                Err(e) => bail!("set_rules_dir: could not canonicalize path {}: {}", rules_dir.display(), e.to_string()),
+                Ok(rules_dir) =>  rules_dir,
+            };
+            self.set_rules_dir(&rules_dir)?;
+            self.set_preference_files()?;
+            self.set_all_files(&rules_dir)?;
+            return Ok( () );
+        }
         #[cfg(not(target_family = "wasm"))]
         let rules_dir = match rules_dir.canonicalize() {
             Err(e) => bail!("set_rules_dir: could not canonicalize path {}: {}", rules_dir.display(), e.to_string()),
@@ -326,6 +338,8 @@ impl PreferenceManager {
         };
 
         let mut user_prefs_file = dirs::config_dir();
+        #[cfg(mathcat_verif)]
+        if let Some(env) = crate::verif_hooks::env() { user_prefs_file = env.config_dir(); }
         if let Some(mut user_prefs_file_path_buf) = user_prefs_file {
             user_prefs_file_path_buf.push("MathCAT/prefs.yaml");
             if is_file_shim(&user_prefs_file_path_buf) {
